@@ -124,7 +124,15 @@ pub fn cross_namespace_states(tier: &str) -> Vec<State> {
 /// non-increasing placement of T0..Td, own content plain, so each member's namespace is the one of
 /// the schema that declared it however many namespace changes lie between it and the derived type.
 pub fn three_namespace_chains(tier: &str) -> Vec<State> {
-    const NS: [&str; 3] = ["http://zv.example/gamma", "http://zv.example/beta", "http://zv.example/alpha"];
+    let mut out = three_namespace_chains_over(tier, ["http://zv.example/gamma", "http://zv.example/beta", "http://zv.example/alpha"], "");
+    // the same with namespace URIs that are PREFIXES of one another (the start file has the longest)
+    out.extend(three_namespace_chains_over(tier, ["http://zv.example/shop/orders/items", "http://zv.example/shop/orders", "http://zv.example/shop"], " nested-uris"));
+    out
+}
+
+fn three_namespace_chains_over(tier: &str, uris: [&'static str; 3], tag: &str) -> Vec<State> {
+    #[allow(non_snake_case)]
+    let NS = uris;
     const FILE: [&str; 3] = ["g.xsd", "b.xsd", "a.xsd"];
     let mut out = vec![];
     let max_d = if tier == "quick" { 2 } else { 3 };
@@ -173,7 +181,7 @@ pub fn three_namespace_chains(tier: &str) -> Vec<State> {
                 }
             }
             let names: Vec<String> = pl.iter().enumerate().map(|(i, k)| format!("T{i}[{}]", ["gamma", "beta", "alpha"][*k])).collect();
-            out.push(State { label: format!("chain3ns {}{}", names.join(" <- "), if reverse_imports { " imports-reversed" } else { "" }), depth: d as u32, set: SchemaSet { files, wsdl: None, start: "g.xsd".into() } });
+            out.push(State { label: format!("chain3ns {}{}{tag}", names.join(" <- "), if reverse_imports { " imports-reversed" } else { "" }), depth: d as u32, set: SchemaSet { files, wsdl: None, start: "g.xsd".into() } });
         }
     }
     out
@@ -230,6 +238,18 @@ fn states(tier: &str) -> Vec<State> {
         }
     }
     out.extend(three_namespace_chains(tier));
+    // a component declared FIRST whose element reference cannot be resolved (its namespace is imported
+    // without a schemaLocation, so the reader gives that one component up), followed by a chain declared
+    // derived-first whose base carries the local name of the failed reference
+    for d in 1..=3usize {
+        let ext = "http://zv.example/external";
+        let chain: Vec<Link> = (0..=d).map(|i| Link { in_b: false, before_base: i > 0, content: "sequence+attributes" }).collect();
+        let mut s = build(&chain, false, false);
+        s.files[0].prefixes.push(("x".into(), ext.into()));
+        s.files[0].imports.push(Import { ns: ext.into(), loc: None });
+        s.files[0].comps.insert(0, complex("Envelope", vec![Particle::Ref(ElemRef { target: QName::new(ext, "T0"), min: 0, max: Max::N(1) }), Particle::Ref(ElemRef { target: QName::new(ext, "T1"), min: 0, max: Max::N(1) })]));
+        out.push(State { label: format!("{} after-a-component-with-unresolvable-refs-to-the-same-local-names", label(&chain, false, false)), depth: d as u32, set: s });
+    }
     // longer chains
     let max_d = if tier == "quick" { 2 } else { 4 };
     let contents3 = ["sequence", "attributes", "sequence+attributes"];
